@@ -134,6 +134,18 @@ impl Config {
                     "Output path must not refer to the same file as the input file.",
                 ));
             }
+            #[cfg(unix)]
+            {
+                // Different paths may still name the same file (hard links).
+                use std::os::unix::fs::MetadataExt;
+                if let (Ok(in_meta), Ok(out_meta)) = (in_path.metadata(), out_path.metadata()) {
+                    if in_meta.dev() == out_meta.dev() && in_meta.ino() == out_meta.ino() {
+                        return Err(SvgdxError::from(
+                            "Output path must not refer to the same file as the input file.",
+                        ));
+                    }
+                }
+            }
         }
         Ok(Self {
             input_path: args.file,
